@@ -20,6 +20,9 @@ CBMC_FLAGS = ['--unwinding-assertions', '--drop-unused-functions', '--undefined-
               '--no-malloc-may-fail', '--verbosity', '6']
 
 
+DEFAULT_UNWIND = 5
+
+
 class Broken(Exception):
     """the check machinery itself failed (tool error, translator mismatch, vacuous harness...)"""
 
@@ -207,6 +210,7 @@ class Ctx:
 
     def _cbmc_once(s, q, unwindset, timeout, trace=False):
         cmd = ['cbmc', q.binary, '--function', q.function] + CBMC_FLAGS + q.extra + (['--trace'] if trace else [])
+        cmd += ['--unwind', str(DEFAULT_UNWIND)]      # loops not named in the unwindset: small default, raised adaptively
         if unwindset: cmd += ['--unwindset', ','.join('%s:%d' % kv for kv in sorted(unwindset.items()))]
         if q.solver == 'kissat': cmd += ['--external-sat-solver', 'kissat']
         elif q.solver == 'cadical': cmd += ['--sat-solver', 'cadical']
@@ -253,7 +257,7 @@ class Ctx:
                         m2 = re.match(r'(.+)\.unwind\.(\d+)$', name)
                         if not m2: continue
                         lid = '%s.%s' % (m2.group(1), m2.group(2))
-                        cur = us.get(lid, 1 if lid not in us else us[lid])
+                        cur = us.get(lid, DEFAULT_UNWIND)
                         cap = q.max_unwind.get(lid, q.max_unwind.get('*', 70))
                         new = min(cap, max(cur + 1, int(cur * 1.5) + 1))
                         if new > cur: us[lid] = new; grew = True
